@@ -45,7 +45,18 @@ class Barrier(WorkChain):
     def a(self):
         items = []
         for i in range(PLAN['n']):
-            items.append(self.launch(Child) if PLAN['child'][i] else plumpy.Future())
+            if PLAN['child'][i]:
+                items.append(self.launch(Child))
+                continue
+            f = plumpy.Future()
+            if i in PLAN['pre']:
+                # the awaited item is already complete when it is handed over (and when WAITING is entered)
+                if PLAN['outcomes'][i] == OK:
+                    f.set_result(PLAN['vals'][i])
+                else:
+                    PLAN['excs'][i] = Boom(f'fut{i}')
+                    f.set_exception(PLAN['excs'][i])
+            items.append(f)
         PLAN['items'] = items
         if PLAN['n'] == 0:
             return None
@@ -82,7 +93,12 @@ def _harness(n, child, outcomes, vals, poss, first_by_return, second, spos, sval
         assume(child[i] or outcomes[i] != KILLED)   # only child processes can be killed; cancelled plain futures are outside the claim
     PLAN.clear()
     SEEN.clear()
-    PLAN.update(n=n, child=child, first_by_return=first_by_return, second=second, items=[])
+    pre = set()
+    for i in range(n):
+        if poss[i] == -1:
+            assume(not child[i] and outcomes[i] != KILLED)
+            pre.add(i)
+    PLAN.update(n=n, child=child, first_by_return=first_by_return, second=second, items=[], pre=pre, outcomes=outcomes, vals=vals, excs={})
     reqs = [Complete(poss[i], i, outcomes[i], vals[i]) for i in range(n)]
     sec = Complete(spos, -1, OK, sval)
     if second:
@@ -169,6 +185,10 @@ def _harness(n, child, outcomes, vals, poss, first_by_return, second, spos, sval
         p = run.proc
         facts = dict(n=n, kinds=['child' if c else 'future' for c in child[:n]], outcomes=[ONAMES[o] for o in outcomes[:n]], completion_order=list(order),
                      first_by_return=first_by_return, second_barrier=second)
+        requested.extend(sorted(pre))
+        excs.update(PLAN['excs'])
+        if pre:
+            NOTES.witness('item_complete_before_waiting')
         if [r for r in deferred if r.idx >= 0] or len(requested) != n or len(order) != n:
             raise Violation('harness_could_not_complete_all_items', **facts)
         failing = [i for i in order if i >= 0 and outcomes[i] != OK]
@@ -198,7 +218,9 @@ def _harness(n, child, outcomes, vals, poss, first_by_return, second, spos, sval
                 raise Violation('not_excepted_after_failed_item', state=str(p.state), **facts)
             e = p.exception()
             if outcomes[first] == EXC:
-                if e is not excs[first]:
+                # items that were already complete when they were handed over have no completion order among themselves
+                accept = [excs[i] for i in failing if i in pre] if first in pre else [excs[first]]
+                if not any(e is x for x in accept):
                     raise Violation('wrong_error', got=type(e).__name__, first_failing=first, **facts)
             elif child[first]:
                 if not isinstance(e, plumpy.KilledError):
@@ -225,14 +247,14 @@ def _harness(n, child, outcomes, vals, poss, first_by_return, second, spos, sval
 
 
 def items2(npos: int, c0: bool, c1: bool, o0: int, o1: int, v0: int, v1: int, p0: int, p1: int, fbr: bool, second: bool, sp: int, sv: int):
-    assume(0 <= p0 <= npos and 0 <= p1 <= npos and 0 <= sp <= npos)
+    assume(-1 <= p0 <= npos and -1 <= p1 <= npos and 0 <= sp <= npos)
     if not second:
         assume(sp == 0)
     _harness(2, [c0, c1], [pick(o0, 3), pick(o1, 3)], [v0, v1], [p0, p1], fbr, second, sp, sv)
 
 
 def items3(npos: int, c0: bool, c1: bool, c2: bool, o0: int, o1: int, o2: int, v0: int, v1: int, v2: int, p0: int, p1: int, p2: int, fbr: bool):
-    assume(0 <= p0 <= npos and 0 <= p1 <= npos and 0 <= p2 <= npos)
+    assume(-1 <= p0 <= npos and 0 <= p1 <= npos and 0 <= p2 <= npos)
     _harness(3, [c0, c1, c2], [pick(o0, 3), pick(o1, 3), pick(o2, 3)], [v0, v1, v2], [p0, p1, p2], fbr, False, 0, 0)
 
 
@@ -243,7 +265,7 @@ def items2p(npos: int, o0: int, o1: int, v0: int, v1: int, p0: int, p1: int, pp:
 
 
 def items1(npos: int, c0: bool, o0: int, v0: int, p0: int, fbr: bool, second: bool, sp: int, sv: int):
-    assume(0 <= p0 <= npos and 0 <= sp <= npos)
+    assume(-1 <= p0 <= npos and 0 <= sp <= npos)
     if not second:
         assume(sp == 0)
     _harness(1, [c0], [pick(o0, 3)], [v0], [p0], fbr, second, sp, sv)
@@ -276,7 +298,7 @@ def shards(tier):
 
 BOUNDS = {
     'quick': dict(items='1 or 2 awaited items in every mix of plain future / child process and value / failing / killed; 3 items in two fixed mixes',
-                  completion=f'each item completes at its own symbolic position 0..5 (thorough: 0..{NPOS}) (hence every order and placement between loop callbacks)',
+                  completion=f'each item completes at its own symbolic position 0..5 (thorough: 0..{NPOS}) (hence every order and placement between loop callbacks); position -1 = a plain future that is already complete when it is handed over',
                   registration='first item by return value or by to_context() (symbolic), the others by to_context()', second_barrier='optional re-assignment of the first key by a later step', pause='two plain futures (value/fails each) with one pause request at a symbolic position, played again at idle'),
     'thorough': dict(items='1..3 items, every mix', completion='positions 0..10 for 1-2 items, 0..5 for 3 items', registration='as quick', second_barrier='for 1 and 2 items'),
 }
@@ -284,7 +306,8 @@ OUTSIDE = ['plain futures that are cancelled (only child processes are killed)',
 RULE = 'paths over (item kinds, outcomes, completion positions, registration way, values); non-trivial when all items completed and the barrier oracle was evaluated'
 SOLVER_ROLE = 'selector role for completion placement/order; data role for the delivered values (ctx compared symbolically)'
 EXPLANATION = 'entry of the next outline step: all awaited items done and their results in ctx; first failure wins and stops the chain'
-ASSUMPTIONS = ['a child that is asked to succeed before it is waiting is resumed at the first later tick at which it waits',
+ASSUMPTIONS = ['among several items that have already failed when they are handed over, the error of any of them is accepted',
+               'a child that is asked to succeed before it is waiting is resumed at the first later tick at which it waits',
                'exception contexts reported to the loop by a second failing item are recorded but are not part of C10']
-REQUIRED_WITNESSES = ['pause_racing_with_completions', 'all_succeeded', 'failed_item', 'two_failing_items', 'out_of_creation_order', 'child_process_awaited']
+REQUIRED_WITNESSES = ['item_complete_before_waiting', 'pause_racing_with_completions', 'all_succeeded', 'failed_item', 'two_failing_items', 'out_of_creation_order', 'child_process_awaited']
 LEVEL_TEXT = 'bounded exhaustive symbolic exploration of number/kind/outcome of awaited items and of the position of every completion between loop callbacks, both registration ways, plus a second barrier'
